@@ -1,6 +1,8 @@
 package mon
 
 import (
+	"runtime"
+
 	"verifharness/drv"
 	"verifharness/gen"
 	"verifharness/ref"
@@ -136,6 +138,10 @@ func monC08(c *drv.Ctx) {
 	// (2) mutated valid encodings
 	c.Stage("mutants", c.Pick(300000, 6000000), false, func(cs *drv.Case) {
 		r := cs.R
+		if cs.Idx%512 == 0 {
+			runtime.GC() // two cycles empty sync.Pool: later cases get fresh pooled decoders
+			runtime.GC()
+		}
 		t := types[r.Intn(len(types))]
 		o := gen.TreeOpts{MaxDepth: 1 + r.Intn(4), MaxElems: 4}
 		v := gen.Tree(r, t, o, 0)
@@ -212,6 +218,19 @@ func monC08(c *drv.Ctx) {
 		if depth >= 60 && cs.WantSample() {
 			cs.Sample(cs.Desc)
 		}
+	})
+
+	// (4b) nesting entered through every position (struct field, list/set element, map key, map value and mixtures)
+	c.Stage("nesting-paths", int64(len(gen.NestPaths))*70*2, true, func(cs *drv.Case) {
+		i := cs.Idx
+		depth := int(i%70) + 1
+		path := gen.NestPaths[(i/70)%int64(len(gen.NestPaths))]
+		empty := i/(70*int64(len(gen.NestPaths))) == 1
+		b, top := gen.NestedPath(path, depth, empty)
+		cs.Desc = M{"path": path, "depth": depth, "empty_inner": empty, "input_hex": hexOf(b)}
+		runAllSkippers(cs, b, top, allocCap, true)
+		runAllSkippers(cs, b[:len(b)-1], top, allocCap, true)
+		cs.C.Obs("nesting-path cases", 1)
 	})
 
 	// (5) every type byte as requested type on small inputs
